@@ -19,7 +19,7 @@ use crate::join::JoinHandle;
 use crate::scoped::spawn_unsafe;
 use crate::sync::Mutex;
 use crate::sync::{AtomicOption, Blocker};
-use crate::yield_now::yield_with;
+use crate::yield_now::{get_co_para, yield_with};
 
 use may_queue::mpsc::Queue;
 
@@ -134,7 +134,12 @@ impl EventSource for EventSender<'_> {
     }
 
     fn yield_back(&self, _cancel: &'static Cancel) {
-        // ignore the cancel to let the bottom half get processed
+        // resumed by the poller: ignore the cancel to let the bottom half get
+        // processed. but when yield_with returned at once because the coroutine
+        // is canceled no event was sent, the bottom half must not run then
+        if get_co_para().is_some() {
+            crate::cancel::trigger_cancel_panic();
+        }
     }
 }
 
